@@ -36,8 +36,12 @@ pub mod graph;
 pub mod parse_error;
 mod parser;
 mod variables;
+#[cfg(feature = "verif")]
+pub mod verif;
 
 pub use execution::error::ExecutionError;
+#[cfg(feature = "verif")]
+pub use execution::error::{Context, StatementContext};
 pub use execution::CancellationError;
 pub use execution::CancellationFlag;
 pub use execution::ExecutionConfig;
